@@ -147,7 +147,14 @@ impl DirSet {
     #[verifier::external_body]
     pub fn insert(&mut self, v: String) -> bool ensures final(self).last@ == v@ { unimplemented!() }
 }
-pub struct PackageBuilder { pub files: FileMap, pub directories: DirSet }
+impl Copy for Timestamp {}
+impl Clone for Timestamp { fn clone(&self) -> Self { *self } }
+/// R11: `a < b` on Timestamp (derived PartialOrd on the tuple struct = order of the seconds)
+#[verifier::external_body]
+pub fn ts_lt(a: Timestamp, b: Timestamp) -> (r: bool) ensures r == (a.0 < b.0) { a.0 < b.0 }
+/// (source_date is not read by add_data on the pinned tree; the field is here so that an edit that starts reading it
+/// - two independent seeds moved the mtime clamp into add_data - is judged instead of rejected)
+pub struct PackageBuilder { pub files: FileMap, pub directories: DirSet, pub source_date: Option<Timestamp> }
 pub proof fn lemma_strlits()
     ensures "./"@ == seq!['.', '/'], "/"@ == seq!['/'], "."@ == seq!['.'], ""@ == Seq::<char>::empty(),
 {
@@ -196,7 +203,8 @@ pub broadcast proof fn lemma_dest_shape(d: Seq<char>, n: Seq<char>)
 impl PackageBuilder {
 '''),
     Fn(BUILDER, 'add_data', impl='impl PackageBuilder',
-       subs=[(re.compile(r'\b(\w+)\.starts_with\(("[^"]*")\)'), r'starts_with_str(&\1, \2)', None, 'R12-str::starts_with(literal)'),
+       subs=[(re.compile(r'if ([A-Za-z_][\w.]*) < ([A-Za-z_][\w.]*) =>'), r'if ts_lt(\1, \2) =>', None, 'R11-derived PartialOrd on Timestamp'),
+             (re.compile(r'\b(\w+)\.starts_with\(("[^"]*")\)'), r'starts_with_str(&\1, \2)', None, 'R12-str::starts_with(literal)'),
              (re.compile(r"\b(\w+)\.starts_with\(('[^']*')\)"), r'starts_with_char(&\1, \2)', None, 'R12-str::starts_with(char)'),
              (re.compile(r"\b(\w+)\.ends_with\(('[^']*')\)"), r'ends_with_char(&\1, \2)', None, 'R12-str::ends_with(char)'),
              (re.compile(r'\bdest\.clone\(\)'), 'string_clone(&dest)', None, 'R12-String::clone'),
@@ -212,7 +220,9 @@ impl PackageBuilder {
         r is Ok ==> final(self).files.offered@ is Some
             && final(self).files.offered@->0.sha_checksum@ == hex_spec(sha256_spec(content@))
             && final(self).files.offered@->0.size == content@.len()
-            && final(self).files.offered@->0.content@ == content@,
+            && final(self).files.offered@->0.content@ == content@
+            // the modification time is kept as given: it is clamped to the source date of the BUILD, in prepare_data (C11)
+            && final(self).files.offered@->0.modified_at == modified_at,
         // '/'-style destination "<d>/<n>": directory "<d>/", base name "<n>", archive path ".<d>/<n>"
         forall|d: Seq<char>, n: Seq<char>| clean_dir(d) && normal_comp(n) && !old(self).files.has_key(seq!['.'] + d + slash() + n)
             && options.destination@ == #[trigger] (d + slash() + n)
@@ -260,5 +270,6 @@ pub fn canary_c06_add(b: &mut PackageBuilder, content: Vec<u8>, t: Timestamp, op
 '''),
 ] + TAIL
 
-OBLIGATIONS = {'PackageBuilder::add_data': ['C06', 'C08'], 'lemma_clean_dir_shape': ['C06'], 'lemma_dest_shape': ['C06']}
+OBLIGATIONS = {'PackageBuilder::add_data': ['C06', 'C08', 'C11'],   # C11: the mtime reaches the clamp of prepare_data unchanged
+               'lemma_clean_dir_shape': ['C06'], 'lemma_dest_shape': ['C06']}
 CANARIES = ['canary_c06_axioms', 'canary_c06_add']
